@@ -852,4 +852,117 @@ def pickEntry (s : List Alloc.Element) (row pos : Nat) : Option Alloc.Entry :=
   ((Alloc.allocations s)[row]?).bind (fun r => r[pos]?)
 
 
+/-! ## loop-control keys as they are read from a track file (`TrackSpecificationReader.parse_parallel` / `parse_task`)
+
+`_r(spec, key, mandatory=False, default_value=d)`: a key that is *present* yields its value — also `0`, `0.0` and `null`
+(`None`) —, only an *absent* key yields the default.  The tasks of a `parallel` element inherit the element's value as default. -/
+
+inductive JVal
+  | absent
+  | null
+  | num (q : Rat)        -- 0, 0.0, 3, 2.5 …
+deriving Repr, DecidableEq
+
+/-- `_r(ops_spec, key, mandatory=False)` on the `parallel` element -/
+def parallelDefault : JVal → Option Rat
+  | .num q => some q
+  | _ => none
+
+/-- `_r(task_spec, key, mandatory=False, default_value=default)` -/
+def readKey (task : JVal) (default : Option Rat) : Option Rat :=
+  match task with
+  | .absent => default
+  | .null => none
+  | .num q => some q
+
+/-- the five inheritable keys of a task / `parallel` element -/
+structure LoopSpec where
+  warmupIt : JVal
+  iters : JVal
+  warmupT : JVal
+  period : JVal
+  rampUp : JVal
+deriving Repr, DecidableEq
+
+def LoopSpec.none : LoopSpec := ⟨.absent, .absent, .absent, .absent, .absent⟩
+
+/-- what `Task(...)` gets for the five keys -/
+structure LoopVals where
+  warmupIt : Option Rat
+  iters : Option Rat
+  warmupT : Option Rat
+  period : Option Rat
+  rampUp : Option Rat
+deriving Repr, DecidableEq
+
+/-- `parse_task`: read with the enclosing element's values as defaults, then the consistency rules (`TrackSyntaxError`) -/
+def parseTaskLoop (par task : LoopSpec) : Option LoopVals :=
+  let v : LoopVals :=
+    { warmupIt := readKey task.warmupIt (parallelDefault par.warmupIt)
+      iters := readKey task.iters (parallelDefault par.iters)
+      warmupT := readKey task.warmupT (parallelDefault par.warmupT)
+      period := readKey task.period (parallelDefault par.period)
+      rampUp := readKey task.rampUp (parallelDefault par.rampUp) }
+  if v.warmupIt.isSome && v.period.isSome then Option.none                              -- mixing warm-up iterations and a time period
+  else if v.warmupT.isSome && v.iters.isSome then Option.none                           -- mixing a warm-up time period and iterations
+  else if (v.warmupIt.isSome || v.iters.isSome) && v.rampUp.isSome then Option.none     -- ramp-up with iterations
+  else
+    match v.rampUp with
+    | Option.none => some v
+    | some ru =>
+      match v.warmupT with
+      | Option.none => Option.none                                                        -- ramp-up without warm-up time period
+      | some w => if w < ru then Option.none else some v
+
+/-- `parse_parallel`: all tasks in order, then "a task's ramp-up must be the element's" -/
+def parseParallelLoops (par : LoopSpec) (tasks : List LoopSpec) : Option (List LoopVals) :=
+  match tasks.mapM (parseTaskLoop par) with
+  | Option.none => Option.none
+  | some vs => if vs.all (fun v => v.rampUp == parallelDefault par.rampUp) then some vs else Option.none
+
+/-- iteration counts are integers in every track the generators produce (0.0 and 3.0 are spellings of 0 and 3) -/
+def ratToNat (q : Rat) : Nat := q.floor.toNat
+
+def LoopVals.apply (v : LoopVals) (t : TaskP) : TaskP :=
+  { t with warmupIt := v.warmupIt.map ratToNat, iters := v.iters.map ratToNat, warmupT := v.warmupT, period := v.period, rampUp := v.rampUp }
+
+/-! ## the schedule alone: what `ScheduleHandle.__call__` yields for an inexhaustible parameter source -/
+
+/-- (number of tuples, number flagged warm-up, last progress, largest progress) of an iteration-based loop control, with `fuel`
+    as the harness's cap -/
+def iterTrace (r : Rat → Rat) : Nat → Loop → Nat × Nat × Option Rat × Option Rat → Nat × Nat × Option Rat × Option Rat
+  | 0, _, acc => acc
+  | fuel + 1, l, (n, w, last, mx) =>
+    if l.finished r then (n, w, last, mx)
+    else
+      let pc : Option Rat := if l.infinite then Option.none else some (l.percent r)
+      let mx' := match mx, pc with
+        | some a, some b => some (if a < b then b else a)
+        | Option.none, p => p
+        | a, Option.none => a
+      iterTrace r fuel (l.next 0) (n + 1, (if l.warmup r then w + 1 else w), pc, mx')
+
+/-! ## the sampler by numbers (for sizes beyond every constant in sight) -/
+
+/-- queue length, sizes of the drained batches, number of reported drops -/
+structure SCount where
+  queue : Nat
+  batches : List Nat
+  dropped : Nat
+deriving Repr, DecidableEq
+
+inductive SBulk
+  | adds (n : Nat)       -- n complete `Sampler.add` calls
+  | drain                -- one `Sampler.samples`
+
+def addsCount (cap : Nat) (st : SCount) (n : Nat) : SCount :=
+  let room := cap - st.queue
+  if n ≤ room then { st with queue := st.queue + n } else { st with queue := cap, dropped := st.dropped + (n - room) }
+
+def sbulkStep (cap : Nat) (st : SCount) : SBulk → SCount
+  | .adds n => addsCount cap st n
+  | .drain => { st with queue := 0, batches := st.batches ++ [st.queue] }
+
+def sbulkRun (cap : Nat) (es : List SBulk) : SCount := es.foldl (sbulkStep cap) ⟨0, [], 0⟩
+
 end Exec
